@@ -134,4 +134,93 @@ theorem wfFrom_of_fold (ctx : BodyCtx) (pre : List String) (items : List Item)
         · exact Or.inl (Or.inr b)
         · exact Or.inr (this a b)
 
+/-! ### `Term.mentions` and `Term.uses` name the same identifiers -/
+
+theorem uses_app_cases (f : String) (args : List Term) :
+    (∃ y, f = "DUP" ∧ args = [.id y] ∧ (Term.app f args).uses = [(y, true)]) ∨
+    (Term.app f args).uses = Term.uses.usesList args := by
+  unfold Term.uses
+  split
+  · simp_all
+  · simp_all
+  all_goals simp_all
+
+mutual
+theorem mem_uses_of_mentions (x : String) : ∀ t : Term, t.mentions x = true → x ∈ t.uses.map Prod.fst
+  | .id y, h => by
+      simp only [Term.mentions, beq_iff_eq] at h
+      simp [Term.uses, h]
+  | .app f args, h => by
+      simp only [Term.mentions] at h
+      rcases uses_app_cases f args with ⟨y, _, ha, hu⟩ | hu
+      · subst ha
+        simp only [mentionsList, Term.mentions, Bool.or_false, beq_iff_eq] at h
+        rw [hu]; simp [h]
+      · rw [hu]; exact mem_usesList_of_mentions x args h
+  | .addr t, h => by
+      simp only [Term.mentions] at h
+      simpa [Term.uses] using mem_uses_of_mentions x t h
+  | .ccast _ t, h => by
+      simp only [Term.mentions] at h
+      simpa [Term.uses] using mem_uses_of_mentions x t h
+  | .arrow t _, h => by
+      simp only [Term.mentions] at h
+      simpa [Term.uses] using mem_uses_of_mentions x t h
+  | .num _, h => by simp [Term.mentions] at h
+  | .flt _, h => by simp [Term.mentions] at h
+  | .chr _, h => by simp [Term.mentions] at h
+  | .str _, h => by simp [Term.mentions] at h
+theorem mem_usesList_of_mentions (x : String) :
+    ∀ ts : List Term, mentionsList x ts = true → x ∈ (Term.uses.usesList ts).map Prod.fst
+  | [], h => by simp [mentionsList] at h
+  | t :: ts, h => by
+      simp only [mentionsList, Bool.or_eq_true] at h
+      simp only [Term.uses.usesList, List.map_append, List.mem_append]
+      rcases h with h | h
+      · exact Or.inl (mem_uses_of_mentions x t h)
+      · exact Or.inr (mem_usesList_of_mentions x ts h)
+end
+
+mutual
+theorem mentions_of_mem_uses (x : String) : ∀ t : Term, x ∈ t.uses.map Prod.fst → t.mentions x = true
+  | .id y, h => by
+      simp only [Term.uses, List.map_cons, List.map_nil, List.mem_singleton] at h
+      simp [Term.mentions, h]
+  | .app f args, h => by
+      simp only [Term.mentions]
+      rcases uses_app_cases f args with ⟨y, _, ha, hu⟩ | hu
+      · subst ha
+        rw [hu] at h
+        simp only [List.map_cons, List.map_nil, List.mem_singleton] at h
+        simp [mentionsList, Term.mentions, h]
+      · rw [hu] at h; exact mentionsList_of_mem_usesList x args h
+  | .addr t, h => by
+      simp only [Term.uses] at h
+      simpa [Term.mentions] using mentions_of_mem_uses x t h
+  | .ccast _ t, h => by
+      simp only [Term.uses] at h
+      simpa [Term.mentions] using mentions_of_mem_uses x t h
+  | .arrow t _, h => by
+      simp only [Term.uses] at h
+      simpa [Term.mentions] using mentions_of_mem_uses x t h
+  | .num _, h => by simp [Term.uses] at h
+  | .flt _, h => by simp [Term.uses] at h
+  | .chr _, h => by simp [Term.uses] at h
+  | .str _, h => by simp [Term.uses] at h
+theorem mentionsList_of_mem_usesList (x : String) :
+    ∀ ts : List Term, x ∈ (Term.uses.usesList ts).map Prod.fst → mentionsList x ts = true
+  | [], h => by simp [Term.uses.usesList] at h
+  | t :: ts, h => by
+      simp only [Term.uses.usesList, List.map_append, List.mem_append] at h
+      simp only [mentionsList, Bool.or_eq_true]
+      rcases h with h | h
+      · exact Or.inl (mentions_of_mem_uses x t h)
+      · exact Or.inr (mentionsList_of_mem_usesList x ts h)
+end
+
+/-- The two notions coincide on every constructor (`DUP(x)` counts as a use of `x` in both; field names of `->`,
+    strings and function heads count in neither). -/
+theorem mentions_iff_mem_uses (x : String) (t : Term) : t.mentions x = true ↔ x ∈ t.uses.map Prod.fst :=
+  ⟨mem_uses_of_mentions x t, mentions_of_mem_uses x t⟩
+
 end Rzil
